@@ -314,8 +314,8 @@ fn c19_o5d_from_str_ascii40_full() {
 }
 
 //@ ob: C19.O5c
-//@ tier: thorough
-//@ cap: 1800
+//@ tier: off
+//@ cap: 2400
 //@ desc: 38-, 39-, 41- and 42-byte ASCII strings are rejected without panic (wrong length, odd length)
 //@ bounds: all ASCII strings of those four lengths; unwind 44
 //@ stubs: alloc::fmt::format -> empty string
@@ -340,7 +340,7 @@ fn c19_o5c_from_str_wrong_len() {
 }
 
 //@ ob: C19.O6
-//@ tier: thorough
+//@ tier: off
 //@ cap: 2400
 //@ desc: Display -> from_str round trip with the real formatter: from_str(id.to_string()) == id
 //@ bounds: ids with 2 symbolic bytes (positions 0 and 19), the rest fixed 0xab; unwind 42
